@@ -29,7 +29,7 @@ MergeContract(cons, ops, res) ==
   /\ Len(res) = n
   (* only occurrences of the constituents, each between once and as often as it occurs in total *)
   /\ \A i \in 1..Len(live) : live[i] \in all
-  /\ \A x \in SeqSet(live) : CountIn(live, x) <= Mult(cons, x)
+  /\ \A x \in SeqSet(live) : CountIn(live, x) = 1
   (* non-decreasing start order *)
   /\ \A i \in 1..(Len(live) - 1) : live[i][1] <= live[i + 1][1]
   (* nothing is skipped: when x is delivered everything earlier has been delivered before *)
